@@ -32,7 +32,7 @@ for n in names:
         if p.returncode != 0:
             summary.append((n, pid, "patch-does-not-apply")); continue
         t0 = time.time()
-        p = subprocess.run([os.path.join(root, "check"), pid, "--tier", tier], cwd=root, env=dict(os.environ, VERIF_REPO=wt), capture_output=True, text=True)
+        p = subprocess.run([os.path.join(root, "check"), pid, "--tier", tier], cwd=root, env=dict(os.environ, VERIF_REPO=wt, VERIF_EVIDENCE_DIR="/tmp/seedrun/evidence"), capture_output=True, text=True)
         viol = [l for l in p.stdout.split("\n") if l.startswith("VIOLATION")]
         caught = p.returncode == 1 and bool(viol)
         rec = {"tier": tier, "caught": caught, "exit": p.returncode, "violation_lines": viol[:4], "wall_s": round(time.time() - t0, 1),
